@@ -93,6 +93,7 @@ func ruleNilableIfaceFields(c *Ctx, rule string, pkgs ...string) {
 	}
 	nilable := map[*types.Var]token.Pos{}
 	owner := map[*types.Var]string{}
+	var typedNil []*ssa.Store
 	for _, fn := range funcs {
 		allInstrs(fn, func(i ssa.Instruction) {
 			st, ok := i.(*ssa.Store)
@@ -118,6 +119,13 @@ func ruleNilableIfaceFields(c *Ctx, rule string, pkgs ...string) {
 					owner[r.Field] = r.Owner.Obj().Name()
 				}
 			}
+			// a typed nil: a pointer that may be nil wrapped into the
+			// interface — `field != nil` is then true and every guard passes
+			if mi, ok := st.Val.(*ssa.MakeInterface); ok {
+				if _, isPtr := mi.X.Type().Underlying().(*types.Pointer); isPtr && mayBeNil(mi.X, map[ssa.Value]bool{}, 1) {
+					typedNil = append(typedNil, st)
+				}
+			}
 		})
 	}
 	var names []string
@@ -126,6 +134,11 @@ func ruleNilableIfaceFields(c *Ctx, rule string, pkgs ...string) {
 	}
 	sort.Strings(names)
 	c.note("%s: interface fields that receive a possibly-nil value: %s", rule, strings.Join(names, ", "))
+	for k, st := range typedNil {
+		r, _ := fieldOf(st.Addr)
+		c.fail(rule, fmt.Sprintf("%s: typed nil stored into %s#%d", fnKey(st.Parent()), r.String(), k+1), st.Pos(),
+			"a pointer that can be nil is converted to the interface type of "+r.String()+": the interface value is then non-nil although it holds a nil pointer, every `!= nil` guard passes and the first method call through it dereferences nil (panic in the caller's goroutine)")
+	}
 	if len(nilable) == 0 {
 		// nothing nil-able: the obligation is empty, which is a fact about the
 		// tree and not a lost anchor
